@@ -167,6 +167,8 @@ var c04Sources = []string{
 	"Patient.nap().name.count()", "%pat.name.given.first()", "Patient.contained.id", "Patient.identifier.where(system.exists()).value", "'x'.matches('^x$')", "5.toQuantity()", "Patient.name.given.first().toChars()", "1 / 0", "Patient.nosuchfield",
 	// inexact quotients before and after a division whose operands have more than 16 fraction digits
 	"1.0 / 3", "2 / 3", "1.00000000000000000001 / 3", "0.1234567890123456789012345 / 7.0", "(1.0 / 3) + (2 / 3)",
+	// results that are a literal's own collection, or pass one through
+	"'official'", "iif(Patient.active, 'yes', 'no')", "iif(Patient.name.exists(), 1, 2)", "{}", "true", "@2020-01-01", "5 'mg'", "Patient.name.select('x')", "Patient.name.select(%spare.take(1))", "Patient.name.select(%spare).count()", "Patient.name.given.select(%spare.skip(1).take(1))",
 	// large collections (an implementation that splits the work must still report the first failing item's error)
 	"%big.where($this > 150).count()", "%big.where($this + 1 > 0)", "%bigmixed.where($this + 1 > 0).count()", "%bigmixed.select($this + 1).count()", "%bigmixed.exists($this.length() > 3)", "%bigmixed.all($this.toString().length() < 9)",
 	"%big.select($this * 2).where($this mod 3 = 0).count()", "%big.distinct().count()", "%big.exists($this = 299)",
@@ -190,7 +192,23 @@ func c04BigVars() []fhirpath.EvaluateOption {
 	mixed[260] = system.String("text")
 	mixed[261] = system.Collection(nil)
 	mixed = append(mixed[:261], mixed[262:]...)
-	return []fhirpath.EvaluateOption{evalopts.EnvVariable("big", big), evalopts.EnvVariable("bigmixed", mixed), evalopts.EnvVariable("unit1", system.String("mg")), evalopts.EnvVariable("uniq", system.String("zq-base"))}
+	return []fhirpath.EvaluateOption{evalopts.EnvVariable("big", big), evalopts.EnvVariable("bigmixed", mixed), evalopts.EnvVariable("unit1", system.String("mg")), evalopts.EnvVariable("spare", c04Spare()), evalopts.EnvVariable("uniq", system.String("zq-base"))}
+}
+
+// c04Spare: three items in a backing array of eight (appending to a sub-slice of it writes into the caller's array).
+var c04SpareShared = append(make(system.Collection, 0, 8), system.String("a"), system.String("b"), system.String("c"))
+
+func c04Spare() system.Collection { return c04SpareShared }
+
+func c04SpareIntact() string {
+	full := c04SpareShared[:cap(c04SpareShared)]
+	want := []any{system.String("a"), system.String("b"), system.String("c"), nil, nil, nil, nil, nil}
+	for i := range full {
+		if full[i] != want[i] {
+			return fmt.Sprintf("slot %d of the backing array holds %v", i, full[i])
+		}
+	}
+	return ""
 }
 
 // c04BigVarsUniq is c04BigVars with %uniq bound to the given text (a pattern that matches nothing in the programs above).
@@ -257,6 +275,9 @@ func runC04(env *core.Env) {
 	}
 	checkPristine := func(phase string) {
 		env.Cover("inputs-compared-with-pristine-copies")
+		if why := c04SpareIntact(); why != "" {
+			env.Violatef("C04/shared-input-modified/collection-backing-array", "after %s the collection bound to %%spare (3 items, capacity 8) was written to: %s", phase, why)
+		}
 		for i, r := range resources {
 			if !proto.Equal(r, pristine[i]) {
 				env.Violatef("C04/shared-input-modified/resource", "after %s shared resource %d (%s) differs from the copy taken before any evaluation", phase, i, r.ProtoReflect().Descriptor().Name())
@@ -405,6 +426,30 @@ func runC04(env *core.Env) {
 			}
 			env.Cover("first-touch")
 		}
+		// (3c) a caller may do what it likes with the collection Evaluate returned: the next evaluation (fresh inputs, so
+		// only the expression itself connects the two) gives the isolated result
+		for a := range exprs {
+			ra := (a + 2*rep) % len(resources)
+			fr1 := proto.Clone(pristine[ra]).(fhir.Resource)
+			feo1 := append(append(gen.EnvOpts(gen.StdEnv()), evalopts.OverrideTime(c04Fixed)), c04BigVars()...)
+			func() {
+				defer func() { recover() }()
+				if c, err := exprs[a].Evaluate([]fhir.Resource{fr1}, feo1...); err == nil {
+					for i := range c {
+						c[i] = system.String("clobbered by the caller")
+					}
+					c = append(c[:0], system.Integer(-1), system.Integer(-2))
+					_ = c
+				}
+			}()
+			fr2 := proto.Clone(pristine[ra]).(fhir.Resource)
+			feo2 := append(append(gen.EnvOpts(gen.StdEnv()), evalopts.OverrideTime(c04Fixed)), c04BigVars()...)
+			env.Eval(2)
+			if got := renderWith(exprs[a], fr2, feo2); got != base[a][ra] {
+				env.Violatef("C04/nondeterministic/after-caller-changed-a-result", "`%s` on resource %d: isolated %q; after the caller overwrote the items of an earlier result %q", srcs[a], ra, trunc(base[a][ra], 100), trunc(got, 100))
+			}
+		}
+		env.Cover("caller-changes-result")
 		checkPristine(fmt.Sprintf("repetition %d", rep))
 		// (4) concurrent patch: one compiled patch expression applied to distinct resources
 		c04Patch(env, rng)
